@@ -211,11 +211,11 @@ impl DiskRun {
             "ins" => {
                 self.nv += 1;
                 self.out.push(json!({"a": "sub", "k": k, "v": self.nv}));
-                self.runner.apply(&json!({"a": "ins", "k": k}))?;
+                self.runner.apply(&json!({"a": "ins", "k": k, "noturn": op.get("noturn").cloned().unwrap_or(json!(false))}))?;
             }
             "rem" => {
                 self.out.push(json!({"a": "del", "k": k, "n": self.nv + 1}));
-                self.runner.apply(&json!({"a": "rem", "k": k}))?;
+                self.runner.apply(&json!({"a": "rem", "k": k, "noturn": op.get("noturn").cloned().unwrap_or(json!(false))}))?;
             }
             "evict_all" | "hold" | "unhold" | "gate_on" => {
                 self.runner.apply(op)?;
@@ -225,13 +225,18 @@ impl DiskRun {
                 let probes = op.get("probes").and_then(|x| x.as_bool()).unwrap_or(true);
                 let tears = op.get("tears").and_then(|x| x.as_bool()).unwrap_or(true);
                 // the acknowledgement of everything submitted so far is logged at the moment it is given
-                let acked = self.runner.spawn_wait_flag();
+                let acked = self.runner.spawn_wait_flag_eager();
                 let mut ack_logged = false;
                 self.runner.turn_pub();
                 for _ in 0..10_000 {
                     if !ack_logged && acked.load(std::sync::atomic::Ordering::SeqCst) {
                         ack_logged = true;
                         self.out.push(json!({"a": "ack"}));
+                        if probes {
+                            // a crash right at the acknowledgement
+                            let res = self.probe(None)?;
+                            self.out.push(json!({"a": "probe", "res": res}));
+                        }
                     }
                     let pending = self.runner.gate.pending();
                     let Some(id) = pending.first().copied() else { break };
@@ -258,6 +263,45 @@ impl DiskRun {
                 if !ack_logged && acked.load(std::sync::atomic::Ordering::SeqCst) {
                     self.out.push(json!({"a": "ack"}));
                 }
+            }
+            // hold reads as well as writes (the reclaimer reads the block it reclaims)
+            "gate_rw" => {
+                self.runner.gate.set_hold(true, true);
+            }
+            // release the held device operations one at a time in a chosen order: "wf" = a read only when no
+            // write is pending (reads slower than writes), "rf" = the opposite, "rand" = seeded random
+            "drain_sched" => {
+                let order = op.get("order").and_then(|x| x.as_str()).unwrap_or("wf").to_string();
+                let mut rng = crate::mem::Lcg(op.get("seed").and_then(|x| x.as_u64()).unwrap_or(1));
+                self.runner.turn_pub();
+                let mut idle = 0;
+                for _ in 0..100_000 {
+                    let pending = self.runner.gate.pending();
+                    if pending.is_empty() {
+                        idle += 1;
+                        if idle > 3 {
+                            break;
+                        }
+                        self.runner.turn_pub();
+                        continue;
+                    }
+                    idle = 0;
+                    let log = self.runner.gate.entries_from(0);
+                    let writes: Vec<usize> = pending.iter().copied().filter(|i| log[*i].write).collect();
+                    let reads: Vec<usize> = pending.iter().copied().filter(|i| !log[*i].write).collect();
+                    let id = match order.as_str() {
+                        "wf" => writes.first().or(reads.first()).copied().unwrap(),
+                        "rf" => reads.first().or(writes.first()).copied().unwrap(),
+                        _ => pending[rng.below(pending.len())],
+                    };
+                    self.runner.gate.release(id);
+                    self.runner.turn_pub();
+                    self.log_writes();
+                }
+                self.runner.gate.set_hold(false, false);
+                self.runner.gate.release_all();
+                self.runner.turn_pub();
+                self.log_writes();
             }
             "wait" => {
                 self.runner.wait_flush()?;
